@@ -163,6 +163,16 @@ pub fn gen_gz(rng: &mut Rng) -> Gz {
 pub struct C17;
 
 impl C17 {
+    /// a gzip case (never plain) for the exhaustive bit-flip enumeration
+    fn flip_base(&self, gs: u64) -> Case {
+        let mut rng = Rng::new(gs);
+        let mut c = self.base_case(&mut rng);
+        if c.gz == Gz::Plain {
+            c.entry = if rng.chance(1, 2) { Entry::ZippedReader } else { Entry::File };
+            c.gz = gen_gz(&mut rng);
+        }
+        c
+    }
     fn base_case(&self, rng: &mut Rng) -> Case {
         let model = gen_model(rng);
         let layout = gen_layout(rng);
@@ -245,20 +255,32 @@ impl Prop for C17 {
     }
 
     fn enum_plan(&self, tier: Tier, seed: u64) -> Vec<(u64, u64)> {
-        // EIO at *every* byte offset (0..=len, i.e. including "after the last byte, before EOF") of N files
-        let n = match tier {
-            Tier::Quick => 20,
-            Tier::Thorough => 2000,
+        // (a) EIO at *every* byte offset (0..=len, i.e. including "after the last byte, before EOF") of N files;
+        // (b) *every* single flipped bit of the container of M gzip files. The group seed's lowest bit tells which.
+        let (n, m) = match tier {
+            Tier::Quick => (20, 2),
+            Tier::Thorough => (2000, 150),
         };
-        (0..n)
+        let mut plan: Vec<(u64, u64)> = (0..n)
             .map(|i| {
-                let gs = crate::rng::mix(&[seed, 0xC17, i]);
+                let gs = crate::rng::mix(&[seed, 0xC17, i]) & !1;
                 let c = self.base_case(&mut Rng::new(gs));
                 (bytes_of(&c).1.len() as u64 + 1, gs)
             })
-            .collect()
+            .collect();
+        for i in 0..m {
+            let gs = crate::rng::mix(&[seed, 0xB17, i]) | 1;
+            let c = self.flip_base(gs);
+            plan.push((bytes_of(&c).1.len() as u64 * 8, gs));
+        }
+        plan
     }
     fn enum_case(&self, gs: u64, k: u64) -> Case {
+        if gs & 1 == 1 {
+            let mut c = self.flip_base(gs);
+            c.flip_bit = Some(k);
+            return c;
+        }
         let mut c = self.base_case(&mut Rng::new(gs));
         c.faults.push(Fault { op: 0, role: role(c.entry).into(), dir: Dir::R, at: At::Byte(k), act: Act::Eio });
         c
@@ -443,7 +465,7 @@ impl Prop for C17 {
     }
 
     fn rule(&self) -> String {
-        "one run = (abstract LP/MIP model with <=6 columns and <=5 rows: E/L/G rows, RHS, RANGES of either sign, integer markers, every BOUNDS type, objective constant, sense absent/inline/own line; layout variant: 3/5-field lines, comments, blank lines, blanks/tabs, number styles, CRLF, section variants; container: plain, flate2 level 0-9 or independent stored-block gzip with optional header fields; entry point: load_raw_reader / load_zipped_reader on a simulated stream or load_file on the simulated disk; schedule: chunking incl. cuts at line ends, inside number tokens, inside the gzip header/trailer; faults: EINTR, short reads, EIO at byte k or call j, open failure, one flipped container bit; or one one-token corruption). Enumerated part: EIO at every byte offset 0..=len of N files. distinct = distinct event-log hash; non-trivial = the model has a column, or a fault fired".into()
+        "one run = (abstract LP/MIP model with <=6 columns and <=5 rows: E/L/G rows, RHS, RANGES of either sign, integer markers, every BOUNDS type, objective constant, sense absent/inline/own line; layout variant: 3/5-field lines, comments, blank lines, blanks/tabs, number styles, CRLF, section variants; container: plain, flate2 level 0-9 or independent stored-block gzip with optional header fields; entry point: load_raw_reader / load_zipped_reader on a simulated stream or load_file on the simulated disk; schedule: chunking incl. cuts at line ends, inside number tokens, inside the gzip header/trailer; faults: EINTR, short reads, EIO at byte k or call j, open failure, one flipped container bit; or one one-token corruption). Enumerated part: EIO at every byte offset 0..=len of N files; every single flipped bit of the container of M gzip files. distinct = distinct event-log hash; non-trivial = the model has a column, or a fault fired".into()
     }
     fn assumptions(&self) -> Vec<String> {
         vec![
